@@ -31,6 +31,12 @@ def dumps(data, **kwargs):
 
     fmt = get_format(**kwargs)
 
+    if not isinstance(data, MeasureSet):
+        # list of MeasureSet, as provided by loads() for a multi-segment message
+        data = MeasureSet(
+            m for x in data for m in (x if isinstance(x, MeasureSet) else [x])
+        )
+
     if fmt == "kvn":
         string = _dumps_kvn(data, **kwargs)
     elif fmt == "xml":
